@@ -573,7 +573,9 @@ func parse(expr string, namespaces map[string]string) node {
 	r.nextChar()
 	r.nextItem()
 	p := &parser{r: r, namespaces: namespaces}
-	return p.parseExpression(nil)
+	n := p.parseExpression(nil)
+	checkItem(r, itemEOF)
+	return n
 }
 
 // rootNode holds a top-level node of tree.
